@@ -45,6 +45,21 @@ fn gen_def(p: &mut Pool) -> Def {
         Wrapping::Some_,
     ]);
     let repeated = matches!(wrapping, Wrapping::Many | Wrapping::Some_);
+    if wrapping == Wrapping::Many && p.rng.chance(1, 3) {
+        // a repeated choice between adjacent commands: `build --release test build`
+        let chain = p.adjacent_command_chain();
+        let n = branches_of(&chain).len();
+        let choice_ix = fields.len();
+        fields.push(chain);
+        return Def {
+            spec: OptSpec::plain(Spec::Seq(fields)),
+            choice_ix,
+            wrapping,
+            n_branches: n,
+            soft: false,
+            commands: true,
+        };
+    }
     let n = p.rng.range(2, 4);
     let commands = !repeated && p.rng.chance(1, 5);
     // "soft" alternatives can succeed without consuming anything (switch, optional argument)
